@@ -67,6 +67,10 @@ func pRichLeaves() []nodeFn {
 		func() *rt.Node { return rt.Call("f", Id("a"), I(2)) },
 		func() *rt.Node { return rt.Call("f", Id("a"), rt.Named("k", I(1)), rt.Named("j", rt.Bin("+", Id("a"), I(1)))) },
 		func() *rt.Node { return rt.Call("f", rt.Call("g", rt.Call("h"))) },
+		// the grammar admits every mix of positional and named arguments (their order is a load-time rule)
+		func() *rt.Node { return rt.Call("f", rt.Named("k", I(1)), Id("a")) },
+		func() *rt.Node { return rt.Call("f", rt.Named("k", I(1))) },
+		func() *rt.Node { return rt.Call("f", Id("a"), rt.Named("k", rt.List(I(1))), Id("b"), rt.Named("j", rt.Call("g", rt.Named("x", I(1)), I(2)))) },
 		func() *rt.Node { return rt.Index("a", I(0)) },
 		func() *rt.Node { return rt.Index("a", I(0), S("k"), rt.Bin("+", Id("i"), I(1))) },
 		func() *rt.Node { return rt.NoObjIndex(I(0)) },
